@@ -153,6 +153,10 @@ func main() {
 				os.Exit(3)
 			}
 		}()
+	case "c06record":
+		c06Record(os.Args[2:])
+	case "c06replay":
+		c06Replay(os.Args[2:])
 	default:
 		fmt.Fprintln(stdout, "unknown command")
 		os.Exit(2)
